@@ -74,6 +74,7 @@ def run(ck):
     r5(ck)
     r6(ck)
     r7(ck)
+    r1c_positions_kept(ck)
     # R8: in the parallel mode "the state left by earlier patches of the same run" is the state of one worker: a file patch sees what was
     # done to its old and new name only if everything that named them ran on the same worker - the grouping of related names (C07)
     from . import c07
@@ -583,3 +584,59 @@ def r6(ck):
             ok = all(bb in cfg.dominated_by_edge(f, g["false_edge"]) for g in tests) and tests
             ck.require(ok, "C16-R6", "comment/blank test precedes option parsing", "the line is split before the comment/blank tests", f.where(t))
         ck.floor("C16-R6", "line splitting sites", len(splits), 1)
+
+
+POSITION_KEEPING = ("par_iter", "iter", "iter_mut", "into_iter", "into_par_iter", "map", "collect", "next", "enumerate", "zip", "for_each",
+                    "try_for_each", "len", "is_empty", "drain", "par_drain", "deref", "index", "as_slice", "as_ref", "clone", "with_capacity",
+                    "get", "first", "last", "size_hint", "by_ref", "inspect", "map_err", "cloned", "copied", "to_vec", "borrow", "from_iter")
+
+
+def r1c_positions_kept(ck, rule="C16-R1c"):
+    """The options of a series entry (-R, -pN) and the name of the patch are looked up by the *position* of the patch in the series
+    (`config.series_patches[index]`).  The index comes from an `enumerate()`; what is enumerated must still have one element per
+    series entry, in series order: on the way from the series to that `enumerate()` (through the vector the loaded patches are
+    collected into) only position-keeping operations are applied - no filter / filter_map / skip / take / rev / chain / retain /
+    remove / sort ..."""
+    prog = ck.prog
+    from ..common import A
+    n = 0
+    for key in ("par", "seq"):
+        f = ck.anchor(A[key])
+        if f is None:
+            continue
+        for g in [f] + prog.closures_of(f):
+            for bb, t in g.calls():
+                p_ = callee_of(t).get("path") or ""
+                if g.blocks[bb]["cleanup"] or not p_.endswith("Iterator::enumerate") or not t["argtys"]:
+                    continue
+                ty = t["argtys"][0]
+                if "SeriesPatch" not in ty and "patch::Patch<" not in ty:
+                    continue        # numbering something else (hunks, file patches of one patch ...)
+                n += 1
+                # the spine of what is enumerated: receiver of receiver of ..., through the vector it was collected into
+                spine = []
+                e = df.operand_expr(g, t["args"][0])
+                seen = set()
+                for _ in range(24):
+                    if isinstance(e, tuple) and e and e[0] == "call" and e[2]:
+                        spine.append(e[1])
+                        e = e[2][0]
+                        continue
+                    if isinstance(e, tuple) and e and e[0] in ("ref", "deref") and len(e) > 1:
+                        e = e[1]
+                        continue
+                    if isinstance(e, tuple) and e and e[0] == "local" and e[1] not in seen:
+                        seen.add(e[1])
+                        ds = [x for x in df.all_def_exprs(g, e[1]) if isinstance(x, tuple) and x and x[0] == "call"]
+                        if len(ds) == 1:
+                            e = ds[0]
+                            continue
+                    break
+                rooted = df.mentions(e, lambda x: isinstance(x, tuple) and x and x[0] == "field" and x[2] == "series_patches")
+                bad = [c for c in spine if c.split("::")[-1] not in POSITION_KEEPING]
+                ck.require(rooted and not bad, rule, "what is numbered is the series, element for element (%s)" % g.id.split("::")[-1],
+                           ("the sequence that is enumerated was made with %s: the loaded patches may no longer be one per series entry and in "
+                            "series order, while -R / -pN and the patch name are looked up by position" % [c.split("::")[-1] for c in bad]) if bad else
+                           "the enumerated sequence does not derive from config.series_patches (%s)" % df.show(e, 80), g.where(t),
+                           ok_detail="series_patches -> %s -> enumerate" % " -> ".join(c.split("::")[-1] for c in reversed(spine)))
+    ck.floor(rule, "enumerations of the series / of the loaded patches in the drivers", n, 2)
